@@ -326,6 +326,56 @@ pub fn case_hugeslice(va: &dyn VariantApi, big: &[u8], pre: usize, len: usize, r
     Ok(())
 }
 
+/// A reader that delivers `total` zero bytes and makes one read end exactly `cut` bytes before
+/// the end (so that a read boundary falls exactly on a mark).
+struct ZeroReader {
+    left: u64,
+    cut: u64,
+}
+impl std::io::Read for ZeroReader {
+    fn read(&mut self, buf: &mut [u8]) -> std::io::Result<usize> {
+        let mut n = (buf.len() as u64).min(self.left);
+        if self.left > self.cut {
+            n = n.min(self.left - self.cut);
+        }
+        buf[..n as usize].fill(0);
+        self.left -= n;
+        Ok(n as usize)
+    }
+}
+
+/// The stream helper over MAX + extra bytes, with a read boundary exactly at MAX: too large
+/// exactly when extra > 0 (the helper may not stop reading at the mark and call it a day).
+pub fn case_hugestream(va: &dyn VariantApi, extra: u64) -> Result<(), String> {
+    let v = va.v();
+    let mut rd = ZeroReader { left: MAX + extra, cut: extra };
+    let r = catch(|| va.hash_stream(&mut rd)).map_err(|p| format!("{}: hash_stream_for over {} bytes panicked: {}", v.name, MAX + extra, p))?;
+    let Some(r) = r else { return Ok(()) };
+    let too_large = matches!(r, Err(StreamErr::Gen(GErr::TooLarge)));
+    if let Err(StreamErr::Io(e)) = &r {
+        return Err(format!("{}: hash_stream_for over {} zero bytes returned the I/O error {:?}", v.name, MAX + extra, e.kind()));
+    }
+    if too_large != (extra > 0) {
+        return Err(format!(
+            "{}: hash_stream_for over {} bytes (MAX {} {}, one read ending exactly at MAX) returned {}; too-large is {}",
+            v.name,
+            MAX + extra,
+            if extra > 0 { "+" } else { "+" },
+            extra,
+            match r {
+                Ok(h) => h.display(),
+                Err(StreamErr::Gen(g)) => format!("{:?}", g),
+                Err(StreamErr::Io(e)) => format!("{:?}", e.kind()),
+            },
+            if extra > 0 { "expected" } else { "not expected" }
+        ));
+    }
+    if rd.left != 0 && extra == 0 {
+        return Err(format!("{}: hash_stream_for returned with {} bytes of the stream unread", v.name, rd.left));
+    }
+    Ok(())
+}
+
 pub const HUGE: usize = (1usize << 32) + 4096;
 
 fn run_hugeslice(ctx: &Ctx) -> CheckResult {
@@ -358,11 +408,27 @@ fn run_hugeslice(ctx: &Ctx) -> CheckResult {
             }
         }
     }
-    let res = par_map(ctx.threads, &jobs, |&(i, pre, len, room)| case_hugeslice(vs[i], &big, pre, len, room));
+    // stream jobs run concurrently with the slice jobs: (variant, extra bytes beyond MAX)
+    let streams: Vec<(usize, u64)> = if !(ctx.api.caps().easy && ctx.api.caps().std) {
+        vec![]
+    } else if quick {
+        vec![(((ctx.seed + 1) % vs.len() as u64) as usize, 1)]
+    } else {
+        (0..vs.len()).flat_map(|i| [(i, 1u64), (i, 0), (i, 1 << 20)]).collect()
+    };
+    let n_slice = jobs.len();
+    for &(i, extra) in &streams {
+        jobs.push((i, usize::MAX, extra as usize, None));
+    }
+    let res = par_map(ctx.threads, &jobs, |&(i, pre, len, room)| if pre == usize::MAX { case_hugestream(vs[i], len as u64) } else { case_hugeslice(vs[i], &big, pre, len, room) });
+    let _ = n_slice;
     for (&(i, pre, len, room), r) in jobs.iter().zip(res) {
         ctx.ev.borrow_mut().evaluations += 1;
         ctx.ev.borrow_mut().nontrivial_enumerated += 1;
         if let Err(m) = r {
+            if pre == usize::MAX {
+                return Err(ctx.violation("hugestream", m, json!({"variant": vs[i].v().name, "extra": len})));
+            }
             return Err(ctx.violation("hugeslice", m, json!({"variant": vs[i].v().name, "pre": pre, "len": len, "room": room})));
         }
     }
@@ -393,6 +459,7 @@ pub fn replay(ctx: &Ctx, check: &str, case: &Value) -> Result<(), String> {
             let c: Cross = serde_json::from_value(case.get("cross").cloned().ok_or("no cross")?).map_err(|e| e.to_string())?;
             case_cross(va, &c, &st)
         }
+        "hugestream" => case_hugestream(va, case.get("extra").and_then(|x| x.as_u64()).unwrap_or(1)),
         "hugeslice" => {
             let pre = case.get("pre").and_then(|x| x.as_u64()).unwrap_or(0) as usize;
             let len = case.get("len").and_then(|x| x.as_u64()).unwrap_or(HUGE as u64) as usize;
